@@ -32,6 +32,8 @@ def check_own_line(rep, repo, rule, what):
 def run(rep, repo, tier):
     for k, v in RULES.items():
         rep.rule(k, v)
+    from ..defined import check_defined
+    check_defined(rep, repo, 'C12.R3', [repo.method(c_, 'generate_instances', required=False) for c_ in ('Generator_ha_sm_hr', 'Generator_spa')] + [repo.method('Generator', '__init__', required=False)], 'instance generation')
     rep.assumptions += ['first-side lists have distinct entries (np.random.choice(..., replace=False): C08.R5 / C17.R5)', 'random.shuffle permutes in place (A4)']
     f = repo.function('create_pref_lists_from_other_lists')
     lists_p, n_p = S(f.params[0]), S(f.params[1])
